@@ -154,6 +154,20 @@ def flipLoop (s : St) : List Nat → R St
     let p ← getPt s.glyph i
     flipLoop { s with glyph := s.glyph.set i { p with on := ¬ p.on } } rest
 
+/-- `op_scanctrl` for an unrotated, unstretched glyph: the new `scan_control`. -/
+def scanctrl (n ppem : Int) (sc : Bool) : Bool :=
+  let thr := n % 256
+  if thr = 255 then true
+  else if thr = 0 then false
+  else
+    let sc := if n / 256 % 2 = 1 ∧ ppem ≤ thr then true else sc
+    let sc := if n / 2048 % 2 = 1 ∧ ppem > thr then false else sc
+    sc
+
+/-- CVT setup of `HintInstance::setup`: `(value as i32) * 64`, then `Fixed(v) * Fixed(scale >> 6)`. -/
+def cvtSetup (units scale : Int) : Option Int :=
+  (chk (units * 64)).map fun v => Fixed.mul v (scale / 64)
+
 /-- `op_instctrl` (`target.preserve_linear_metrics()` is false for every target the comparison tool
 uses): `selector = pop() as u32; value = pop() as u32`. -/
 def instctrl (s : St) (sel v : Int) : St :=
@@ -476,14 +490,7 @@ def step (op imm : Int) (s : St) : R St := do
   -- SCANCTRL
   else if op = 0x85 then do
     let (n, s) ← s.pop
-    let thr := n % 256
-    if thr = 255 then pure { s with scanControl := true }
-    else if thr = 0 then pure { s with scanControl := false }
-    else
-      let sc := s.scanControl
-      let sc := if n / 256 % 2 = 1 ∧ s.ppem ≤ thr then true else sc
-      let sc := if n / 2048 % 2 = 1 ∧ s.ppem > thr then false else sc
-      pure { s with scanControl := sc }
+    pure { s with scanControl := scanctrl n s.ppem s.scanControl }
   -- SDPVTL
   else if op = 0x86 ∨ op = 0x87 then do
     let (i1, s) ← s.popIdx
